@@ -89,8 +89,8 @@ func (s *subscription) Next() channel.AdjudicatorEvent {
 func (s *subscription) Err() error { return nil }
 
 func (s *subscription) Close() error {
-	s.once.Do(func() { close(s.closed) })
 	s.a.h.note(s.k, "adj.sub-closed", "")
+	s.once.Do(func() { close(s.closed) })
 	return nil
 }
 
